@@ -27,10 +27,7 @@ def nth(s, old, new, k):
 
 M = [
  ('baseline', None, None),
- ('revert-flush-reply-fix', MC, lambda s: s.replace('''	if len(cmd.GetReqs()) == 0 {
-		m.completeCopyCommand(cmd, cmdQueue)
-	}
-''', '')),
+ ('revert-flush-reply-fix', MC, lambda s: s.replace('		m.completeCopyCommand(cmd, cmdQueue)\n', '		_ = cmdQueue\n')),
  ('d2h-no-flush', MC, lambda s: nth(s, 'if m.needFlushing(queue.Context, cmd.Src, uint64(binary.Size(cmd.Dst))) {', 'if false && m.needFlushing(queue.Context, cmd.Src, uint64(binary.Size(cmd.Dst))) {', 0)),
  ('h2d-no-flush', MC, lambda s: nth(s, 'if m.needFlushing(queue.Context, cmd.Dst, uint64(binary.Size(cmd.Src))) {', 'if false && m.needFlushing(queue.Context, cmd.Dst, uint64(binary.Size(cmd.Src))) {', 0)),
  ('memRangeOverlap-inverted', MC, lambda s: s.replace('if start1 <= start2 && end1 > start2 {', 'if start1 <= start2 && end1 < start2 {').replace('if start1 < end2 && end1 >= end2 {', 'if start1 < end2 && end1 <= end2 && end1 >= end2+1 {')),
@@ -42,7 +39,7 @@ M = [
  ('dma-h2d-sizeLeftInPage-ignores-offset', MC, lambda s: nth(s, 'sizeLeftInPage := page.PageSize - (addr - page.VAddr)', 'sizeLeftInPage := page.PageSize', 0)),
  ('dma-d2h-sizeLeftInPage-off-by-one', MC, lambda s: nth(s, 'sizeLeftInPage := page.PageSize - (addr - page.VAddr)', 'sizeLeftInPage := page.PageSize - (addr - page.VAddr) + 1', 1)),
  ('emu-h2d-sizeLeftInPage-ignores-offset', GS, lambda s: nth(s, 'sizeLeftInPage := page.PageSize - (addr - page.VAddr)', 'sizeLeftInPage := page.PageSize', 0)),
- ('emu-d2h-sizeLeftInPage-off-by-one', GS, lambda s: nth(s, 'sizeLeftInPage := page.PageSize - (addr - page.VAddr)', 'sizeLeftInPage := page.PageSize - (addr - page.VAddr) - 1', 1)),
+ ('emu-d2h-sizeLeftInPage-off-by-one', GS, lambda s: nth(s, 'sizeLeftInPage := page.PageSize - (addr - page.VAddr)', 'sizeLeftInPage := page.PageSize - (addr - page.VAddr) + 1', 1)),
  ('emu-h2d-offset-not-advanced', GS, lambda s: nth(s, '		offset += sizeToCopy\n', '', 0)),
  ('emu-d2h-addr-not-advanced', GS, lambda s: nth(s, '		addr += sizeToCopy\n', '', 1)),
  ('dma-d2h-offset-not-advanced', MC, lambda s: nth(s, '		offset += sizeToCopy\n', '', 1)),
@@ -73,7 +70,8 @@ def run(seed='1'):
     subprocess.run(f'rm -rf {ALT}/replays/C11', shell=True)
     env = dict(os.environ, VERIF_REPO=WT, VERIF_SEED=seed, C11_WATCHDOG_S='240')
     r = subprocess.run(['/verif/bin/vcheck', 'C11', 'quick'], env=env, capture_output=True, text=True)
-    return r.returncode, keys(), r.stdout[-3000:]
+    inc = [l for l in r.stdout.splitlines() if 'INCONCLUSIVE' in l or 'inconclusive:' in l]
+    return r.returncode, keys(), r.stdout[-3000:] + '\n'.join(inc[:5])
 
 def main():
     want = sys.argv[1:]
